@@ -19,7 +19,7 @@ def step (s : St) (ws : List String) : St × String :=
     | some n, some p, some m => ({ nkeys := n, prices := p, maxUnits := m }, "ok")
     | _, _, _ => (s, "bad-op")
   | "parent" :: kvs =>
-    match allSome (kvs.map (parseKV "=")) with
+    match allSome (kvs.map (parseKVal "=")) with
     | some l => ({ s with parent := l }, "ok")
     | none => (s, "bad-op")
   | ["tx", id, sp, pre, units, keys, prog] =>
